@@ -119,7 +119,10 @@ def fileMover (s : RealState) (cwd : APath) (src dst : PurePath) (override : Boo
   else
     match mkdirP s cwd (parentOf dst) with
     | (s', some e) => (s', some e)
-    | (s', none) => shutilMove s' cwd src dst
+    | (s', none) =>
+      -- F13: the destination is tested again once its parent directories exist
+      if !override && lexistsRel s'.fs cwd dst then (s', some .destExists)
+      else shutilMove s' cwd src dst
 
 /-- `os.path.abspath`: purely lexical normalisation -/
 def lexNorm : APath → List Name → APath
@@ -139,10 +142,11 @@ deriving Repr
 def dryRunRenamer (s : DryState) (cwd : APath) (src dst : PurePath) (override : Bool) : DryState × Option RenErr :=
   let sk := absKey cwd src
   let dk := absKey cwd dst
-  let srcExists := (lexistsRel s.base cwd src || s.created.contains sk) && !s.removed.contains sk
+  -- F14: existence in the real file system is tested on the normalised key
+  let srcExists := (lexists s.base sk || s.created.contains sk) && !s.removed.contains sk
   if !srcExists then (s, some .notFound)
   else
-    let dstExists := (lexistsRel s.base cwd dst || s.created.contains dk) && !s.removed.contains dk
+    let dstExists := (lexists s.base dk || s.created.contains dk) && !s.removed.contains dk
     if dstExists && !override then (s, some .destExists)
     else
       let removed := (s.removed ++ [sk]).filter (· ≠ dk)      -- add(src); discard(dst)
